@@ -16,6 +16,12 @@
 //	            uintN(<term>), int(len..)  -> the term
 //	conditions  < <= > >= == != on terms, ||, &&, !, parentheses; everything else is COpaque
 //
+// Also guards: the conditions of an if / else-if chain and of a tagless switch whose branches all end in a return;
+// `if err := F(..); err != nil { return .. }` and a final `return F(..)` where F is a function or method declared in
+// the SAME package applied to (field paths of) the validated value: the guards of F are inlined with the paths
+// prefixed (ClientState.Validate ends in `return m.Header.ValidateBasic()`: its guards arrive as "Header.Bloom" ...),
+// so extracting a helper or merging functions re-checks.
+//
 // <root> is the receiver (or the named parameter) of the function.  The walk stops at the first statement that
 // can make the function return nil before its end (an `if` that returns nil, a loop or switch containing a
 // return): guards after such a statement are not executed on every accepting path, so they are NOT reported.
@@ -49,7 +55,7 @@ import (
 	"strings"
 )
 
-const version = "haltguards-v1"
+const version = "haltguards-v3"
 
 type target struct {
 	Dir  string // package directory
@@ -57,14 +63,18 @@ type target struct {
 	Name string
 	Root string // "" = the receiver; otherwise the parameter whose fields the guards talk about
 	Coq  string // name of the generated definition
+	Loop string // "" = the function body; otherwise the guards of the body of the top-level `for _, x := range <root>.<Loop>`,
+	// about the fields of the element x (executed for every element on every accepting path)
 }
 
 var targets = []target{
-	{"x/xibc/clients/light-clients/bsc/types", "ClientState", "Validate", "", "bsc_client_validate_guards"},
-	{"x/xibc/clients/light-clients/bsc/types", "Header", "ValidateBasic", "", "bsc_header_validate_guards"},
-	{"x/xibc/clients/light-clients/bsc/types", "", "ecrecover", "header", "bsc_ecrecover_guards"},
-	{"x/xibc/clients/light-clients/eth/types", "Header", "ValidateBasic", "", "eth_header_validate_guards"},
-	{"x/xibc/core/client/types", "GenesisMetadata", "Validate", "", "genesis_metadata_validate_guards"},
+	{"x/xibc/clients/light-clients/bsc/types", "ClientState", "Validate", "", "bsc_client_validate_guards", ""},
+	{"x/xibc/clients/light-clients/bsc/types", "", "ecrecover", "header", "bsc_ecrecover_guards", ""},
+	{"x/xibc/clients/light-clients/eth/types", "ClientState", "Validate", "", "eth_client_validate_guards", ""},
+	{"x/xibc/core/client/types", "GenesisMetadata", "Validate", "", "genesis_metadata_validate_guards", ""},
+	{"x/aggregate/types", "GenesisState", "Validate", "", "aggregate_genesis_pair_guards", "TokenPairs"},
+	{"x/xibc/core/packet/types", "GenesisState", "Validate", "", "packet_genesis_ack_guards", "Acknowledgements"},
+	{"x/xibc/core/packet/types", "GenesisState", "Validate", "", "packet_genesis_commitment_guards", "Commitments"},
 }
 
 // named constants (package directory, name, generated definition)
@@ -243,8 +253,35 @@ func main() {
 		} else if !hasParam(fd, root) {
 			die("%s: parameter %s not found (renamed? update the translator)", t.Name, root)
 		}
-		tr := &translator{info: p.info, root: root, alias: map[string]string{}}
-		guards, stopped := tr.guards(fd.Body)
+		tr := &translator{info: p.info, files: p.files, roots: map[string]string{root: ""}, alias: map[string]string{}}
+		body := fd.Body
+		if t.Loop != "" {
+			// the loop must be a top-level statement reached on every accepting path: no early accepting return before it
+			body = nil
+			for _, st := range fd.Body.List {
+				if rs, ok := st.(*ast.RangeStmt); ok {
+					if pth, ok := tr.path(rs.X); ok && pth == t.Loop {
+						v, ok := rs.Value.(*ast.Ident)
+						if !ok || v.Name == "_" {
+							die("%s: the loop over %s has no element variable", t.Name, t.Loop)
+						}
+						if hasBranch(rs.Body) {
+							die("%s: the loop over %s contains break / continue / goto (outside the translator's subset)", t.Name, t.Loop)
+						}
+						tr = &translator{info: p.info, files: p.files, roots: map[string]string{v.Name: ""}, alias: map[string]string{}}
+						body = rs.Body
+						break
+					}
+				}
+				if returnsNil(st) {
+					break
+				}
+			}
+			if body == nil {
+				die("%s: no top-level loop over %s.%s reached on every accepting path (restructured? update the translator)", t.Name, root, t.Loop)
+			}
+		}
+		guards, stopped := tr.guards(body)
 		name := t.Name
 		if t.Recv != "" {
 			name = t.Recv + "." + t.Name
@@ -331,8 +368,28 @@ func recvName(e ast.Expr) string {
 
 type translator struct {
 	info  *types.Info
-	root  string
+	files []*ast.File       // the package's files: same-package helpers are inlined
+	roots map[string]string // identifier -> field path it denotes ("" = the validated value itself)
 	alias map[string]string // local variable -> Coq term
+	depth int
+}
+
+func hasBranch(n ast.Node) bool {
+	found := false
+	ast.Inspect(n, func(m ast.Node) bool {
+		switch m.(type) {
+		case *ast.FuncLit:
+			return false
+		case *ast.RangeStmt, *ast.ForStmt, *ast.SwitchStmt, *ast.TypeSwitchStmt, *ast.SelectStmt:
+			if m != n {
+				return false // break / continue inside a nested loop or switch belong to it
+			}
+		case *ast.BranchStmt:
+			found = true
+		}
+		return true
+	})
+	return found
 }
 
 func returnsNil(n ast.Node) bool {
@@ -354,6 +411,16 @@ func returnsNil(n ast.Node) bool {
 	return found
 }
 
+// endsInReturn: the block's last statement is a return (of something that is not the identifier nil: callers have
+// excluded that with returnsNil)
+func endsInReturn(b *ast.BlockStmt) bool {
+	if b == nil || len(b.List) == 0 {
+		return false
+	}
+	ret, ok := b.List[len(b.List)-1].(*ast.ReturnStmt)
+	return ok && len(ret.Results) > 0
+}
+
 // guards walks the top-level statements of the body.
 func (t *translator) guards(body *ast.BlockStmt) ([]string, bool) {
 	var out []string
@@ -363,18 +430,47 @@ func (t *translator) guards(body *ast.BlockStmt) ([]string, bool) {
 			if returnsNil(st) {
 				return out, true
 			}
-			if st.Else != nil || len(st.Body.List) == 0 {
+			// if A {...return} else if B {...return} ...: B is evaluated only when A was false, and the function
+			// goes on (or accepts) only when both were: every condition of the chain is a guard as long as all the
+			// branches before it end in a return
+			for cur := st; cur != nil; {
+				if !endsInReturn(cur.Body) {
+					break
+				}
+				if cur.Init != nil {
+					out = append(out, t.initGuard(cur)...)
+				} else {
+					out = append(out, t.cond(cur.Cond))
+				}
+				next, _ := cur.Else.(*ast.IfStmt)
+				cur = next
+			}
+		case *ast.SwitchStmt:
+			if returnsNil(st) {
+				return out, true
+			}
+			if st.Init != nil || st.Tag != nil {
 				continue
 			}
-			ret, ok := st.Body.List[len(st.Body.List)-1].(*ast.ReturnStmt)
-			if !ok || len(ret.Results) == 0 {
-				continue
+			// switch { case A: return ..; case B: return .. }: as the if / else-if chain
+			for _, c := range st.Body.List {
+				cc, ok := c.(*ast.CaseClause)
+				if !ok || cc.List == nil { // default
+					break
+				}
+				if len(cc.Body) == 0 {
+					break
+				}
+				ret, ok := cc.Body[len(cc.Body)-1].(*ast.ReturnStmt)
+				if !ok || len(ret.Results) == 0 {
+					break
+				}
+				g := t.cond(cc.List[0])
+				for _, e := range cc.List[1:] {
+					g = "(COr " + g + " " + t.cond(e) + ")"
+				}
+				out = append(out, g)
 			}
-			if st.Init != nil {
-				out = append(out, "COpaque")
-				continue
-			}
-			out = append(out, t.cond(st.Cond))
 		case *ast.AssignStmt:
 			if st.Tok == token.DEFINE && len(st.Lhs) == 1 && len(st.Rhs) == 1 {
 				if id, ok := st.Lhs[0].(*ast.Ident); ok {
@@ -392,6 +488,14 @@ func (t *translator) guards(body *ast.BlockStmt) ([]string, bool) {
 				}
 			}
 		case *ast.ReturnStmt:
+			// tail call of a same-package validation: the function accepts iff the callee does
+			if len(st.Results) == 1 {
+				if call, ok := st.Results[0].(*ast.CallExpr); ok {
+					if g, ok := t.inline(call); ok {
+						out = append(out, g...)
+					}
+				}
+			}
 			return out, false
 		default:
 			if returnsNil(s) {
@@ -400,6 +504,94 @@ func (t *translator) guards(body *ast.BlockStmt) ([]string, bool) {
 		}
 	}
 	return out, false
+}
+
+// initGuard: `if err := CALL; err != nil { ...; return .. }` - the guards of a same-package callee are inlined,
+// anything else is one opaque guard.
+func (t *translator) initGuard(st *ast.IfStmt) []string {
+	as, ok := st.Init.(*ast.AssignStmt)
+	// `if n := len(x); n < c {`: a local alias
+	if ok && as.Tok == token.DEFINE && len(as.Lhs) == 1 && len(as.Rhs) == 1 {
+		if id, isID := as.Lhs[0].(*ast.Ident); isID {
+			if tm, isTerm := t.term(as.Rhs[0]); isTerm {
+				t.alias[id.Name] = tm
+				return []string{t.cond(st.Cond)}
+			}
+		}
+	}
+	if ok && as.Tok == token.DEFINE && len(as.Lhs) == 1 && len(as.Rhs) == 1 {
+		errID, ok1 := as.Lhs[0].(*ast.Ident)
+		call, ok2 := as.Rhs[0].(*ast.CallExpr)
+		be, ok3 := st.Cond.(*ast.BinaryExpr)
+		if ok1 && ok2 && ok3 && be.Op == token.NEQ {
+			l, okl := be.X.(*ast.Ident)
+			r, okr := be.Y.(*ast.Ident)
+			if okl && okr && l.Name == errID.Name && r.Name == "nil" {
+				if g, ok := t.inline(call); ok {
+					return g
+				}
+			}
+		}
+	}
+	return []string{"COpaque"}
+}
+
+// inline returns the guards of a call of a function / method declared in the same package whose receiver or
+// arguments are field paths of the validated value (the callee returns nil only if all of them were false).
+func (t *translator) inline(call *ast.CallExpr) ([]string, bool) {
+	if t.depth >= 4 {
+		return nil, false
+	}
+	var obj types.Object
+	var recvExpr ast.Expr
+	switch f := call.Fun.(type) {
+	case *ast.Ident:
+		obj = t.info.Uses[f]
+	case *ast.SelectorExpr:
+		obj = t.info.Uses[f.Sel]
+		recvExpr = f.X
+	}
+	fn, ok := obj.(*types.Func)
+	if !ok {
+		return nil, false
+	}
+	var decl *ast.FuncDecl
+	for _, file := range t.files {
+		for _, d := range file.Decls {
+			if fd, ok := d.(*ast.FuncDecl); ok && fd.Body != nil && t.info.Defs[fd.Name] == fn {
+				decl = fd
+			}
+		}
+	}
+	if decl == nil {
+		return nil, false
+	}
+	roots := map[string]string{}
+	if decl.Recv != nil {
+		if recvExpr == nil || len(decl.Recv.List) != 1 || len(decl.Recv.List[0].Names) != 1 {
+			return nil, false
+		}
+		if p, ok := t.pathOf(recvExpr); ok {
+			roots[decl.Recv.List[0].Names[0].Name] = p
+		}
+	}
+	i := 0
+	for _, fld := range decl.Type.Params.List {
+		for _, n := range fld.Names {
+			if i < len(call.Args) {
+				if p, ok := t.pathOf(call.Args[i]); ok {
+					roots[n.Name] = p
+				}
+			}
+			i++
+		}
+	}
+	if len(roots) == 0 {
+		return nil, false
+	}
+	sub := &translator{info: t.info, files: t.files, roots: roots, alias: map[string]string{}, depth: t.depth + 1}
+	g, _ := sub.guards(decl.Body)
+	return g, true
 }
 
 func (t *translator) cond(e ast.Expr) string {
@@ -441,8 +633,9 @@ func (t *translator) cond(e ast.Expr) string {
 	return "COpaque"
 }
 
-// path returns "A.B" for the selector chain <root>.A.B
-func (t *translator) path(e ast.Expr) (string, bool) {
+// pathOf: the field path an expression denotes: <root>.A.B -> join(path of root, "A.B"); a root identifier alone
+// denotes its own path when that is not the whole validated value.
+func (t *translator) pathOf(e ast.Expr) (string, bool) {
 	var parts []string
 	for {
 		switch x := e.(type) {
@@ -453,13 +646,30 @@ func (t *translator) path(e ast.Expr) (string, bool) {
 		case *ast.ParenExpr:
 			e = x.X
 			continue
+		case *ast.StarExpr:
+			e = x.X
+			continue
+		case *ast.UnaryExpr:
+			if x.Op == token.AND {
+				e = x.X
+				continue
+			}
 		case *ast.Ident:
-			if x.Name == t.root && len(parts) > 0 {
+			if base, ok := t.roots[x.Name]; ok {
+				if base != "" {
+					parts = append([]string{base}, parts...)
+				}
 				return strings.Join(parts, "."), true
 			}
 		}
 		return "", false
 	}
+}
+
+// path: a NON-EMPTY field path
+func (t *translator) path(e ast.Expr) (string, bool) {
+	p, ok := t.pathOf(e)
+	return p, ok && p != ""
 }
 
 func unsignedInt(ty types.Type) bool {
@@ -483,6 +693,9 @@ func (t *translator) term(e ast.Expr) (string, bool) {
 	case *ast.Ident:
 		if a, ok := t.alias[x.Name]; ok {
 			return a, true
+		}
+		if p, ok := t.path(x); ok && unsignedInt(t.info.Types[e].Type) {
+			return "(TField \"" + p + "\")", true
 		}
 	case *ast.SelectorExpr:
 		if p, ok := t.path(x); ok && unsignedInt(t.info.Types[e].Type) {
